@@ -85,7 +85,7 @@ func corpusJobs(c *Ctx, check int64, windows, holes int, seedOff int64) int {
 	return accepted
 }
 
-const corpusNote = "corpus family (HCorpusHole): the .jst projects under /repo/testdata (the maintainers' own fixtures: every feature of the language, the schema rules, the negative cases) as they are — the file index is the symbolic input of a window of 100 files — and with 2 symbolic bytes substituted at sampled cuts; INCLUDEd files are read from the real file system, an INCLUDE name holding a symbolic byte resolves to nothing"
+const corpusNote = "corpus family (HCorpusHole): the .jst projects under /repo/testdata (the maintainers' own fixtures: every feature of the language, the schema rules, the negative cases) as they are — all of them in both tiers; the file index is the symbolic input of a window of 100 files — and with 2 symbolic bytes substituted at sampled cuts; INCLUDEd files are read from the real file system, an INCLUDE name holding a symbolic byte resolves to nothing"
 
 // PropFn runs all jobs of a property for a tier and returns the exit code.
 type PropFn func(c *Ctx) int
@@ -194,7 +194,7 @@ func propC01(c *Ctx) int {
 	if thorough {
 		corpusJobs(c, 1, -1, 400, 101)
 	} else {
-		corpusJobs(c, 1, 2, 25, 101)
+		corpusJobs(c, 1, -1, 25, 101)
 	}
 	// the NewLocation contract the stub relies on
 	locationContractJobs(c, 4)
@@ -459,8 +459,6 @@ func propC10(c *Ctx) int {
 		wins, maxn := rng.Perm(nWin), int64(5)
 		if c.Tier == "thorough" {
 			maxn = 7
-		} else if len(wins) > 3 {
-			wins = wins[:3]
 		}
 		sort.Ints(wins)
 		split := 0
@@ -479,7 +477,7 @@ func propC10(c *Ctx) int {
 		}
 	}
 	return c.Finish("model_checking", []string{
-		"corpus family (HCorpusSplit, paste=1): every file under /repo/testdata that is accepted, has no MACRO / PASTE / INCLUDE line and 1..5 (quick: 3 windows of 100 files) / 1..7 (thorough: all files) top-level blocks after JSIGHT: every run of consecutive blocks whose kinds the context table admits inside a MACRO (INFO, SERVER, URL, the methods, TYPE, ENUM — a frozen list) becomes the body of MACRO @zzm ( ... ), defined right after JSIGHT or at the end of the file (symbolic), and PASTE @zzm takes its place: accepted, catalog equal to the one of the original (deep digest, entry by entry)",
+		"corpus family (HCorpusSplit, paste=1): every file under /repo/testdata that is accepted, has no MACRO / PASTE / INCLUDE line and 1..5 (quick, all files) / 1..7 (thorough, all files) top-level blocks after JSIGHT: every run of consecutive blocks whose kinds the context table admits inside a MACRO (INFO, SERVER, URL, the methods, TYPE, ENUM — a frozen list) becomes the body of MACRO @zzm ( ... ), defined right after JSIGHT or at the end of the file (symbolic), and PASTE @zzm takes its place: accepted, catalog equal to the one of the original (deep digest, entry by entry)",
 		"macro graphs (HMacroDag): macros a, b, c each calling up to two macros (targets symbolic over {a, b, c, none}: diamonds, the same macro called twice, cycles of any shape): rejected with the recursion error exactly when a macro reaches itself",
 		"one macro used twice (HPasteTwice): two URLs with a path parameter / two methods / two responses, each calling the same macro (bodies incl. a method with a Path directive), optional directive between the calls, MACRO defined before JSIGHT / after it / at the end: accepted, same deep digest as the bodies written in place, closure",
 		"text level (HPasteText): 5 call sites x 11 blocks (incl. resources with path parameters) x 4 following directives x 2 indentations x MACRO defined before JSIGHT / right after it / at the end (all symbolic): the document with the block in place and the document with MACRO/PASTE must both be accepted with equal catalog digests (entities, order, names, annotations, schema text) or rejected with the same message class",
@@ -608,9 +606,6 @@ func propC08(c *Ctx) int {
 		nWin := (len(files) + 99) / 100
 		rng := rand.New(rand.NewSource(c.Seed + 8))
 		wins := rng.Perm(nWin)
-		if !thorough && len(wins) > 3 {
-			wins = wins[:3]
-		}
 		sort.Ints(wins)
 		compared := 0
 		for _, w := range wins {
@@ -631,7 +626,7 @@ func propC08(c *Ctx) int {
 	}
 	return c.Finish("model_checking", []string{
 		"multi-line notes (HNoteLayout): /* */ notes that span lines on ENUM values and on schema properties x {LF->CRLF, LF->CR, uniform indentation by one blank / two blanks / a tab}: equal deep digest (which holds every note); known finding F-C08-multiline-enum-note-indentation for the indentation of ENUM value notes",
-		"corpus family (HCorpusLayout): every file under /repo/testdata without a CR and without INCLUDE (quick: 3 windows of 100 files, thorough: all 1108), built as written and with every line end rewritten to CRLF or to CR (file index and convention symbolic): the same verdict; accepted: equal deep digest; rejected: the same error class (message up to its first quoted part) on the same line",
+		"corpus family (HCorpusLayout): every file under /repo/testdata without a CR and without INCLUDE (all 1108), built as written and with every line end rewritten to CRLF or to CR (file index and convention symbolic): the same verdict; accepted: equal deep digest; rejected: the same error class (message up to its first quoted part) on the same line",
 		fmt.Sprintf("comment content (HLayoutComment): a '#' line comment / '### ... ###' block comment with %d arbitrary content bytes (any byte but NUL; line comment without line ends; block without ### inside) at a symbolic choice among all frozen trivia sites of each skeleton (outside existing comments): same verdict, same deep digest", kcm),
 		"between a keyword line and its body (HLayoutBody): 11 body-carrying directives (TYPE, Query, Headers, Path, Request, response, Params, Result, Body x2, ENUM) x placement (root / pasted MACRO) x 6 rewrites (explicit ( ) around the body; '#' line comment; one-line ### block; multi-line ### block with a blank line; blank + whitespace-only lines; ( ) plus block comment), all symbolic choices; for TYPE and Body a comment before the body is a schema comment (part of the body text, not of the schema) and is discounted from the digest",
 		"compositions: trivia insertion x line-ending rewrite (the skeleton and the variant both rewritten to CRLF / CR; every site in the thorough tier, every 3rd in the quick tier); model x layout in C02 (group 9)",
@@ -676,8 +671,6 @@ func propC09(c *Ctx) int {
 		wins, maxn := rng.Perm(nWin), int64(6)
 		if c.Tier == "thorough" {
 			maxn = 8
-		} else if len(wins) > 3 {
-			wins = wins[:3]
 		}
 		sort.Ints(wins)
 		split := 0
@@ -696,7 +689,7 @@ func propC09(c *Ctx) int {
 		}
 	}
 	return c.Finish("model_checking", []string{
-		"corpus family (HCorpusSplit): every file under /repo/testdata that is accepted, has no MACRO / PASTE / INCLUDE line and 1..6 (quick: 3 windows of 100 files) / 1..8 (thorough: all 1108 files) top-level blocks after JSIGHT — cut at the root directives of the implementation's own directive tree, which places the test and does not judge it: every run of consecutive blocks (start and length symbolic) moves into piece.jst, an INCLUDE takes its place: the project is accepted and has the catalog of the single file (deep digest, entry by entry)",
+		"corpus family (HCorpusSplit): every file under /repo/testdata that is accepted, has no MACRO / PASTE / INCLUDE line and 1..6 (quick, all files) / 1..8 (thorough, all files) top-level blocks after JSIGHT — cut at the root directives of the implementation's own directive tree, which places the test and does not judge it: every run of consecutive blocks (start and length symbolic) moves into piece.jst, an INCLUDE takes its place: the project is accepted and has the catalog of the single file (deep digest, entry by entry)",
 		fmt.Sprintf("relational: 5 skeleton projects (3 accepted, 2 rule-rejected) and 2 documents rejected while a macro body is expanded at its PASTE (the MACRO may end up in the included file) vs the same project with the run of 1..%d consecutive directive blocks starting at a symbolic directive boundary moved into piece.jst and replaced by INCLUDE (depth 2: the piece is cut once more into inner.jst; two directories: the run is cut into inner.jst next to the root and sub/inner.jst included from sub/wrap.jst — two different files written with the same name); symbolic: cut position, LF/CRLF after INCLUDE, tail of the included file (as is / no final line end / extra blank line / comment line where trivia is legal)", maxSpan),
 		"oracle: equal catalog digest (every entity, order, names, annotations, descriptions, schema text, emitter-level content) or the same error MESSAGE (whole text), located in the file that now holds the directive at the corresponding index",
 		"pieces are cut at directive boundaries only (not inside a directive); JSIGHT stays in the root file; file system = virtual",
@@ -902,8 +895,6 @@ func propC15(c *Ctx) int {
 		wins, maxn := rng.Perm(nWin), int64(4)
 		if c.Tier == "thorough" {
 			maxn = 5
-		} else if len(wins) > 3 {
-			wins = wins[:3]
 		}
 		sort.Ints(wins)
 		permuted := 0
@@ -922,7 +913,7 @@ func propC15(c *Ctx) int {
 		}
 	}
 	return c.Finish("model_checking", []string{
-		"corpus family (HCorpusPermute): every file under /repo/testdata that is accepted, has no MACRO / PASTE / INCLUDE line and has 2..4 (quick: 3 windows of 100 files) / 2..5 (thorough: all 1108 files) top-level blocks after JSIGHT — the root directives of the implementation's own directive tree give the cut positions (used to place the test, not to judge it) — built as written and with its blocks in a symbolic permutation (Lehmer code: every order): the permuted document is accepted and has the same entities with the same content (deep digest as multisets)",
+		"corpus family (HCorpusPermute): every file under /repo/testdata that is accepted, has no MACRO / PASTE / INCLUDE line and has 2..4 (quick, all files) / 2..5 (thorough, all files) top-level blocks after JSIGHT — the root directives of the implementation's own directive tree give the cut positions (used to place the test, not to judge it) — built as written and with its blocks in a symbolic permutation (Lehmer code: every order): the permuted document is accepted and has the same entities with the same content (deep digest as multisets)",
 		"tags family: methods with and without Tags, a declared TAG used before / after its block, optionally a Tags directive naming the path tag of another method, optionally a TAG declared with the name of a path tag (5 blocks, all orders, 4 variants): the verdict and the error class do not depend on the order; if accepted, the same entities",
 		"generated examples are not part of the comparison here: for schemas that refer to a regex type they are not even stable from run to run (C06, known finding F-C06-regex-example-map-order)",
 		fmt.Sprintf("one accepted document of %d independent top-level blocks after JSIGHT (TAG with description; TYPE @a referring to @b and to an ENUM; TYPE @b referring back to @a and carrying a rule; ENUM with notes; URL block with two methods, Tags and type references; stand-alone method with a path parameter, request headers + body and an array-of-type response; quick: + nothing, thorough: + SERVER) built as written and in a symbolic permutation (Lehmer code: all %d! orders); second job: one block fewer, and which block refers to which is symbolic as well (@a -> @b, @b -> @a — both: a cycle —, @a -> ENUM, the stand-alone method -> @a / @b: 16 reference structures x all orders; the TAG block is replaced by a JSON-RPC method whose Params inherit from @b through allOf and whose Result is [@a])", n, n),
@@ -966,7 +957,7 @@ func propC16(c *Ctx) int {
 	if c.Tier == "thorough" {
 		corpusJobs(c, 16, -1, 300, 116)
 	} else {
-		corpusJobs(c, 16, 2, 15, 116)
+		corpusJobs(c, 16, -1, 15, 116)
 	}
 	return c.Finish("model_checking", []string{
 		corpusNote + " — here: the five accessors called three times round on every accepted document, each returning the bytes of its first call",
@@ -1025,7 +1016,7 @@ func propC04(c *Ctx) int {
 	if thorough {
 		emitted += corpusJobs(c, 4, -1, 600, 104)
 	} else {
-		emitted += corpusJobs(c, 4, 2, 30, 104)
+		emitted += corpusJobs(c, 4, -1, 30, 104)
 	}
 	if emitted == 0 {
 		c.Inconclusive("vacuity: no accepted document was emitted")
@@ -1096,7 +1087,7 @@ func propC17(c *Ctx) int {
 	if thorough {
 		exported += corpusJobs(c, 17, -1, 600, 117)
 	} else {
-		exported += corpusJobs(c, 17, 2, 30, 117)
+		exported += corpusJobs(c, 17, -1, 30, 117)
 	}
 	if exported == 0 {
 		c.Inconclusive("vacuity: no accepted document was exported")
